@@ -50,7 +50,7 @@ def universe(rnd, n):
     out = []
     for _ in range(n):
         cfg = {"skip": rnd.choice([0, 0, 1, 2]), "cnt": rnd.choice([0, 0, 1, 3]), "sel": rnd.choice(list(SEL)), "fields": rnd.choice(fields), "excl": rnd.choice(excls),
-               "override": rnd.random() < 0.3, "mts": rnd.random() < 0.4, "split": rnd.choice([0, 0, 2])}
+               "override": rnd.choice(["no", "no", "no", "set", "empty"]), "mts": rnd.random() < 0.4, "split": rnd.choice([0, 0, 2])}
         out.append((rnd.choice(lays), cfg))
     return out
 
@@ -145,8 +145,10 @@ def run_rdump(files, lay, cfg, mode, compiled, tmp):
         argv += ["-F", ",".join(cfg["fields"])]
     if cfg["excl"]:
         argv += ["-X", ",".join(cfg["excl"])]
-    if cfg["override"]:
+    if cfg["override"] == "set":
         argv += ["--record-source", "OVR", "--record-classification", "CLS"]
+    elif cfg["override"] == "empty":
+        argv += ["--record-source", "", "--record-classification", ""]
     if cfg["mts"]:
         argv += ["--multi-timestamp"]
     if not compiled:
@@ -232,7 +234,7 @@ def run(tier):
     files = Files(tmp, A, B, A2)
     uni = universe(ctx.rnd, 700 if not thorough else 12000)
     # always include the plain identity run and the documented corner cases
-    plain = {"skip": 0, "cnt": 0, "sel": "none", "fields": [], "excl": [], "override": False, "mts": False, "split": 0}
+    plain = {"skip": 0, "cnt": 0, "sel": "none", "fields": [], "excl": [], "override": "no", "mts": False, "split": 0}
     lay_good = [src_choices(1)[0], src_choices(2)[0], src_choices(3)[0]]
     uni = [(lay_good, plain), (lay_good, dict(plain, mts=True)), (lay_good, dict(plain, sel="other_ge_x")), ([src_choices(1)[1], src_choices(2)[2], src_choices(3)[0]], plain)] + uni
     cases = []
